@@ -64,6 +64,12 @@ func hangCheck(c *core.Ctx, cl *hs.Client, cs any) bool {
 		c.Violate("wedge", "goroutine blocked or spinning inside library: "+strings.Join(lib, "; "), "the serving goroutine neither answered, nor blocked for input, nor closed the connection\n"+trim(dump, 3000), cs)
 	} else if cl.C.Abandoned(dump) {
 		c.Violate("abandoned", "the goroutine that served the connection has ended without closing it: the client waits for ever", "no goroutine is left that reads this connection, and the server side was never closed\n"+trim(replyKinds(cl.C.Out()), 300), cs)
+	} else if _, ok := cl.C.Quiesce(); ok {
+		// nothing is stuck and the connection has come to rest after all: the step merely took longer than
+		// the watchdog allows (a machine with far more runnable threads than cores). The case is not judged.
+		c.Count("cases_not_judged_on_a_slow_machine", 1)
+		cl.Hung = false
+		return true
 	} else {
 		c.Inconclusive("watchdog fired without a library-blocked goroutine")
 	}
